@@ -257,3 +257,24 @@ Lemma tokenize_err s e : snd (tokenize cfg s) = EndErr e -> e = ParseErr.
 Proof. apply tokenize_fuel_err. Qed.
 
 End Generic.
+
+(* each `__next__` strictly shortens the input, or reports end of stream, or raises
+   UnterminatedQuoteError (a DataParseError); the model's own fuel artefact never appears *)
+Lemma tokenizer_progress_l (cfg : tok_cfg) (s : str) :
+  match next_token cfg s with
+  | TTok t q cs rest => (length rest < length s)%nat
+  | TEof _ => True
+  | TErr e => e = ParseErr
+  | TFuel => False
+  end.
+Proof.
+  destruct (next_token cfg s) as [cs|e| |t q cs rest] eqn:E.
+  - exact I.
+  - unfold next_token in E. eapply next_tok_err; eauto.
+  - exact (next_token_no_fuel cfg s E).
+  - eapply next_token_progress; eauto.
+Qed.
+
+Lemma tokenize_total_l (cfg : tok_cfg) (s : str) :
+  snd (tokenize cfg s) <> EndFuel /\ (forall e, snd (tokenize cfg s) = EndErr e -> e = ParseErr).
+Proof. split; [apply tokenize_total | apply tokenize_err]. Qed.
